@@ -1,7 +1,7 @@
 """C09 — securities are independent; tickers case-insensitive (structural clauses)."""
 from mir import Terms, parse_callee, show, op_place, op_const, place_proj, subterms, is_decimal_arith_assign
 from flow import root_of_operand
-from roles import Roles, RULES, POOL, LOT, agg_fields, guards_of, truth, is_agg
+from roles import Roles, RULES, POOL, LOT, agg_fields, guards_of, truth, is_agg, eq_guard
 import panics as P
 
 META = {
@@ -160,14 +160,17 @@ def lookahead_guards(R, rep):
 def merge_guard(R, rep):
     c = R.require("canon")
     tb = R.terms(c, 0)
+    c = R.merge_site()
+    tb = R.terms(c, 0)
     merges = [(i, t) for i, t in c.calls() if is_decimal_arith_assign(t["callee"]) == "AddAssign"]
     if not merges:
         rep.unresolved("R3", "merge", "no accumulation (+=) in the canonicaliser")
     for i, t in merges[:2]:
         ok = False
         for cond, val, s in guards_of(c, tb, i):
-            if isinstance(cond, tuple) and cond[0] == "cmp" and cond[1] == "Eq" and truth(val):
-                if show(cond[2]).endswith(".ticker") and show(cond[3]).endswith(".ticker"):
+            eg = eq_guard(cond, val)
+            if eg:
+                if show(eg[0]).endswith(".ticker") and show(eg[1]).endswith(".ticker"):
                     ok = True
         rep.ob("R3", f"merge@{c.loc(t['sp']).rsplit(':', 2)[-2]}:ticker-equal", ok, "lines are merged only if their tickers are equal" if ok else
                "same-day lines of different securities can be merged", c.loc(t["sp"]), key="R3:merge:ticker")
